@@ -8,6 +8,8 @@ CONSTANTS
   MaxTypes = 3
   StropMode = "prefix"
   GenNsChoices = {FALSE}
+  Spellings = {"rel"}
+  CanonNs = FALSE
 INVARIANT Refines
 INVARIANT IndexClosed
 INVARIANT MadeIndexed
